@@ -145,6 +145,9 @@ impl Elem {
 
 struct P<'a> {
     s: &'a [u8],
+    /// the same input as text: `rest_str` slices it in O(1) (validating the remainder for every
+    /// token made the parser quadratic)
+    src: &'a str,
     i: usize,
     /// tolerate undeclared namespace prefixes (XML 1.0 well-formedness without the Namespaces constraint)
     lenient_ns: bool,
@@ -169,14 +172,18 @@ impl<'a> P<'a> {
     fn rest(&self) -> &'a [u8] {
         &self.s[self.i..]
     }
+    /// the remainder as text ("" when the position is not a character boundary, which only an earlier
+    /// error can cause)
+    fn rest_str(&self) -> &'a str {
+        self.src.get(self.i..).unwrap_or("")
+    }
     fn starts(&self, p: &str) -> bool {
         self.rest().starts_with(p.as_bytes())
     }
     fn peek_char(&self) -> Option<char> {
-        std::str::from_utf8(self.rest()).ok().and_then(|s| s.chars().next()).or_else(|| {
-            // rest may be cut in the middle by an earlier error; parse() validates utf-8 up front
-            None
-        })
+        // decode one character (validating the whole remainder for every character is quadratic)
+        let r = self.rest();
+        (1..=r.len().min(4)).find_map(|k| std::str::from_utf8(&r[..k]).ok()).and_then(|s| s.chars().next())
     }
     fn skip_ws(&mut self) -> bool {
         let start = self.i;
@@ -186,7 +193,7 @@ impl<'a> P<'a> {
         self.i > start
     }
     fn name(&mut self) -> Result<String, XmlError> {
-        let st = std::str::from_utf8(self.rest()).map_err(|_| XmlError { pos: self.i, msg: "utf8".into() })?;
+        let st = self.rest_str();
         let mut len = 0;
         for (k, c) in st.char_indices() {
             let ok = if k == 0 { is_name_start(c) } else { is_name_char(c) };
@@ -204,7 +211,7 @@ impl<'a> P<'a> {
     }
     fn reference(&mut self, out: &mut String) -> Result<(), XmlError> {
         // at '&'
-        let st = std::str::from_utf8(self.rest()).unwrap_or("");
+        let st = self.rest_str();
         let end = match st.find(';') {
             Some(e) if e <= 12 => e,
             _ => return self.err("unterminated entity reference"),
@@ -269,7 +276,7 @@ impl<'a> P<'a> {
     fn comment(&mut self) -> Result<String, XmlError> {
         // at "<!--"
         self.i += 4;
-        let st = std::str::from_utf8(self.rest()).unwrap_or("");
+        let st = self.rest_str();
         match st.find("--") {
             Some(e) if st[e..].starts_with("-->") => {
                 let c = st[..e].to_string();
@@ -285,7 +292,7 @@ impl<'a> P<'a> {
     }
     fn pi(&mut self) -> Result<String, XmlError> {
         // at "<?"
-        let st = std::str::from_utf8(self.rest()).unwrap_or("");
+        let st = self.rest_str();
         match st.get(2..).and_then(|t| t.find("?>")).map(|e| e + 2) {
             Some(e) => {
                 let body = st[2..e].to_string();
@@ -429,7 +436,7 @@ impl<'a> P<'a> {
                     children.push(Node::Comment(self.comment()?));
                 } else if self.starts("<![CDATA[") {
                     self.i += 9;
-                    let st = std::str::from_utf8(self.rest()).unwrap_or("");
+                    let st = self.rest_str();
                     match st.find("]]>") {
                         Some(e) => {
                             if st[..e].chars().any(|c| !is_xml_char(c)) {
@@ -483,7 +490,7 @@ pub fn parse_lenient_ns(input: &str) -> Result<Doc, XmlError> {
 }
 
 fn parse_with(input: &str, lenient_ns: bool) -> Result<Doc, XmlError> {
-    let mut p = P { s: input.as_bytes(), i: 0, lenient_ns };
+    let mut p = P { s: input.as_bytes(), src: input, i: 0, lenient_ns };
     let mut decl = None;
     if p.starts("<?xml") && matches!(p.s.get(5), Some(b' ' | b'\t' | b'\n' | b'\r' | b'?')) {
         match input.find("?>") {
